@@ -31,7 +31,8 @@ def ext_attr(modname, attr):
         return math.pi
     if dotted in ("gymnasium.Env", "gymnasium.spaces.Discrete", "gymnasium.spaces.MultiDiscrete",
                   "gymnasium.spaces.Box", "enum.IntEnum", "enum.Enum", "numpy.ndarray",
-                  "numpy.integer", "numpy.floating"):
+                  "numpy.integer", "numpy.floating", "numpy.int_", "numpy.int64", "numpy.int32", "numpy.int16",
+                  "numpy.int8", "numpy.uint8", "numpy.intc", "numpy.signedinteger"):
         return ExtClass(dotted)
     if modname == "gymnasium" and attr == "spaces":
         return ModRef("gymnasium.spaces")
@@ -271,6 +272,18 @@ def compare(I, op, a, b, node=None):
             return t if isinstance(op, ast.In) else (not t)
         return mk(t if isinstance(op, ast.In) else z3.Not(t), "bool")
     # ordering
+    if isinstance(a, PySet) and isinstance(b, PySet):
+        if a.sym or b.sym:
+            raise EngineLimit("ordering of sets with abstract parts")
+        ina = [contains(I, b, x, node) for x in a.items]
+        inb = [contains(I, a, x, node) for x in b.items]
+        if any(not isinstance(t, bool) for t in ina + inb):
+            raise EngineLimit("subset test over symbolic set elements")
+        sub, sup = all(ina), all(inb)
+        return {ast.LtE: sub, ast.Lt: sub and not sup, ast.GtE: sup, ast.Gt: sup and not sub}[type(op)]
+    if not is_sym(a) and not is_sym(b) and not (isinstance(a, (int, float, str, tuple, bool)) and
+                                                   isinstance(b, (int, float, str, tuple, bool))):
+        raise EngineLimit(f"ordering between {type(a).__name__} and {type(b).__name__}")
     if not is_sym(a) and not is_sym(b):
         try:
             if isinstance(op, ast.Lt):
@@ -695,6 +708,11 @@ def _isinstance(I, v, t):
                  "builtins.str": [TAG_STR], "numpy.integer": [TAG_NPINT], "numpy.floating": [TAG_NPFLOAT]}
         if n in table:
             return mk(z3.Or(*[tag == x for x in table[n]]), "bool")
+        if n in ("numpy.int_", "numpy.int64", "numpy.int32", "numpy.int16", "numpy.int8", "numpy.uint8", "numpy.intc",
+                 "numpy.signedinteger"):
+            # a NumPy integer scalar of unknown width: it may or may not be an instance of this particular subclass
+            sub = I.ctx.fresh("np_subclass", z3.BoolSort())
+            return mk(z3.And(tag == TAG_NPINT, sub), "bool")
         return False
     k = kind_of(v) if (isinstance(v, (SymV, bool, int, float, str)) or v is None) else None
     if v is None:
@@ -1060,6 +1078,22 @@ def _m_setattr(I, b, a, kw, node):
     return None
 
 
+@ext("builtins.hash")
+def _m_hash(I, b, a, kw, node):
+    # assumed: hash() is some integer function of the value; nothing else is known about it
+    v = a[0]
+    if isinstance(v, (int, str, float, tuple)) and not isinstance(v, bool) and not (isinstance(v, tuple) and any(is_sym(x) for x in v)):
+        return hash(v)
+    return SymV(I.ctx.fresh("hash", z3.IntSort()), "int")
+
+
+@ext("builtins.divmod")
+def _m_divmod(I, b, a, kw, node):
+    q = binop(I, ast.FloorDiv(), a[0], a[1], node)
+    r = binop(I, ast.Mod(), a[0], a[1], node)
+    return (q, r)
+
+
 @ext("builtins.print")
 def _m_print(I, b, a, kw, node):
     return None
@@ -1334,6 +1368,18 @@ def _m_supdate(I, b, a, kw, node):
             for y in I.iter_concrete(x):
                 _m_sadd(I, b, [y], {}, node)
     return None
+
+
+@ext("set.issubset")
+def _m_issubset(I, b, a, kw, node):
+    other = a[0] if isinstance(a[0], PySet) else PySet(I.iter_concrete(a[0]))
+    return compare(I, ast.LtE(), b, other, node)
+
+
+@ext("set.issuperset")
+def _m_issuperset(I, b, a, kw, node):
+    other = a[0] if isinstance(a[0], PySet) else PySet(I.iter_concrete(a[0]))
+    return compare(I, ast.GtE(), b, other, node)
 
 
 @ext("set.copy")
